@@ -25,6 +25,7 @@ import DarkluaModel.Rules.NilDeclarationHeap
 import DarkluaModel.Rules.NilDeclarationHeap2
 import DarkluaModel.Rules.ConvertIndexWhole
 import DarkluaModel.Rules.ComputeExpressionWhole
+import DarkluaModel.Rules.WholeRuleC08
 /-!
 # C01 — default rules preserve program behaviour: property theorems
 
@@ -928,5 +929,118 @@ example : Rules.NilDeclaration.General.applyG litApi nilCallSample = Rules.NilDe
            .callStmt (.call (.var "emit") none .tuple [.var "a", .var "b", .var "c"])] none := by rfl
   have h3 : Rules.NilDeclaration.Guarded.applyG litApi nilCallSample = nilCallSample := by rfl
   exact ⟨h1.trans h2.symm, h2, h3⟩
+
+/-! ## whole-rule theorems for the REAL evaluator (`c08Api N E`, `C08.Agree N E`)
+
+The `_upto` theorems above ask the evaluator contract at EVERY number system (`∀ N, EvalTotal N api`), which only
+`litApi` meets: the rule `apply (c08Api N E)` and C08's theorems are relative to ONE number system that agrees
+with the evaluator's primitives. `Rules/AtN.lean` lifts hooks that are sound for runs over one `N` (stage 3; the
+number system is pinned through the context's call-handler assumption `CF`, discharged by `rfl` at every level).
+
+What the real evaluator provably meets in TOTAL form (a dropped evaluation must SUCCEED, not merely be harmless
+when it succeeds) is `gApi N E`: `c08Api N E` restricted to `guard = h8 ∧ tot` (`Rules/EvalC08Total.lean`:
+`tot_total`, `gApi_total`, `gApi_str` from `C08.evaluate_sound_partial`, `C08.truthy_sound`, `C08.single_sound`).
+A rule run with `gApi` is the guarded rule — sound on every program —, and the rule itself is covered on every
+program on which the two runs agree (a decidable hypothesis; driver op `c01.c08guard`). -/
+
+/-- `remove_unused_while` with the real evaluator, guarded: EVERY program, every run over a number system that
+agrees with the evaluator's primitives. -/
+theorem rule_refines_remove_unused_while_upto_C08_guarded {N : NumOps} {E : Evaluator.EvalOps N}
+    (A : C08.Agree N E) (b : Block) (ρ : ExtOracle N) (n : Nat) (externs : List String) :
+    runProgram ρ n externs b = .timeout ∨
+      runProgram ρ n externs (Rules.UnusedWhile.apply (gApi N E) b) = runProgram ρ n externs b :=
+  Rules.UnusedWhile.apply_upto_at (gApi_total A) b ρ n externs
+
+/-- `remove_unused_while` as the driver runs it (`c08Api N E`): every program on which it agrees with the guarded
+rule (every removed loop has a condition inside `h8 ∧ tot`). -/
+theorem rule_refines_remove_unused_while_upto_C08 {N : NumOps} {E : Evaluator.EvalOps N}
+    (A : C08.Agree N E) (b : Block)
+    (h : Rules.UnusedWhile.apply (gApi N E) b = Rules.UnusedWhile.apply (c08Api N E) b)
+    (ρ : ExtOracle N) (n : Nat) (externs : List String) :
+    runProgram ρ n externs b = .timeout ∨
+      runProgram ρ n externs (Rules.UnusedWhile.apply (c08Api N E) b) = runProgram ρ n externs b := by
+  rw [← h]; exact rule_refines_remove_unused_while_upto_C08_guarded A b ρ n externs
+
+/-- `while 1 > 2 do f() end; g()` -/
+def whileC08Sample : Block :=
+  .mk [.while_ (.bin .gt (.num 1) (.num 2)) (.mk [.callStmt (.call (.var "f") none .tuple [])] none),
+       .callStmt (.call (.var "g") none .tuple [])] none
+
+-- non-vacuity: with C08's toy instance the hypotheses hold and the loop is removed (an arithmetic comparison:
+-- outside `litApi`)
+example : C08.Agree C08.toyN C08.toyE ∧
+    Rules.UnusedWhile.apply (gApi C08.toyN C08.toyE) whileC08Sample =
+      Rules.UnusedWhile.apply (c08Api C08.toyN C08.toyE) whileC08Sample ∧
+    Rules.UnusedWhile.apply (c08Api C08.toyN C08.toyE) whileC08Sample =
+      .mk [.callStmt (.call (.var "g") none .tuple [])] none ∧
+    Rules.UnusedWhile.apply litApi whileC08Sample = whileC08Sample := by
+  have h1 : Rules.UnusedWhile.apply (gApi C08.toyN C08.toyE) whileC08Sample =
+      .mk [.callStmt (.call (.var "g") none .tuple [])] none := by rfl
+  have h2 : Rules.UnusedWhile.apply (c08Api C08.toyN C08.toyE) whileC08Sample =
+      .mk [.callStmt (.call (.var "g") none .tuple [])] none := by rfl
+  have h3 : Rules.UnusedWhile.apply litApi whileC08Sample = whileC08Sample := by rfl
+  exact ⟨C08.toy_agree, h1.trans h2.symm, h2, h3⟩
+
+/-- `remove_unused_if_branch` (statements and `if` expressions) with the real evaluator, guarded: every program. -/
+theorem rule_refines_remove_unused_if_branch_upto_C08_guarded {N : NumOps} {E : Evaluator.EvalOps N}
+    (A : C08.Agree N E) (b : Block) (ρ : ExtOracle N) (n : Nat) (externs : List String) :
+    runProgram ρ n externs b = .timeout ∨
+      runProgram ρ n externs (Rules.UnusedIfBranch.apply (gApi N E) b) = runProgram ρ n externs b :=
+  Rules.UnusedIfBranch.apply_upto_at (gApi_total A) b ρ n externs
+
+/-- `remove_unused_if_branch` as the driver runs it, on every program on which it agrees with the guarded rule. -/
+theorem rule_refines_remove_unused_if_branch_upto_C08 {N : NumOps} {E : Evaluator.EvalOps N}
+    (A : C08.Agree N E) (b : Block)
+    (h : Rules.UnusedIfBranch.apply (gApi N E) b = Rules.UnusedIfBranch.apply (c08Api N E) b)
+    (ρ : ExtOracle N) (n : Nat) (externs : List String) :
+    runProgram ρ n externs b = .timeout ∨
+      runProgram ρ n externs (Rules.UnusedIfBranch.apply (c08Api N E) b) = runProgram ρ n externs b := by
+  rw [← h]; exact rule_refines_remove_unused_if_branch_upto_C08_guarded A b ρ n externs
+
+/-- `if 1 + 1 == 2 then f() else g() end` -/
+def ifC08Sample : Block :=
+  .mk [.ifs [(.bin .eq (.bin .add (.num 1) (.num 1)) (.num 2), .mk [.callStmt (.call (.var "f") none .tuple [])] none)]
+        (some (.mk [.callStmt (.call (.var "g") none .tuple [])] none))] none
+
+example : Rules.UnusedIfBranch.apply (gApi C08.toyN C08.toyE) ifC08Sample =
+      Rules.UnusedIfBranch.apply (c08Api C08.toyN C08.toyE) ifC08Sample ∧
+    Rules.UnusedIfBranch.apply (c08Api C08.toyN C08.toyE) ifC08Sample =
+      .mk [.doBlock (.mk [.callStmt (.call (.var "f") none .tuple [])] none)] none := by
+  have h1 : Rules.UnusedIfBranch.apply (gApi C08.toyN C08.toyE) ifC08Sample =
+      .mk [.doBlock (.mk [.callStmt (.call (.var "f") none .tuple [])] none)] none := by rfl
+  have h2 : Rules.UnusedIfBranch.apply (c08Api C08.toyN C08.toyE) ifC08Sample =
+      .mk [.doBlock (.mk [.callStmt (.call (.var "f") none .tuple [])] none)] none := by rfl
+  exact ⟨h1.trans h2.symm, h2⟩
+
+/-- `convert_index_to_field` with the real evaluator, guarded: every program. -/
+theorem rule_refines_convert_index_to_field_upto_C08_guarded {N : NumOps} {E : Evaluator.EvalOps N}
+    (A : C08.Agree N E) (b : Block) (ρ : ExtOracle N) (n : Nat) (externs : List String) :
+    runProgram ρ n externs b = .timeout ∨
+      runProgram ρ n externs (Rules.ConvertIndexToField.apply (gApi N E) b) = runProgram ρ n externs b :=
+  Rules.ConvertIndexToField.apply_upto_at (gApi_total A) (gApi_str A) b ρ n externs
+
+/-- `convert_index_to_field` as the driver runs it, on every program on which it agrees with the guarded rule
+(every converted key is inside `h8 ∧ tot`: string literals, concatenations of strings, `"a" and "b"` …). -/
+theorem rule_refines_convert_index_to_field_upto_C08 {N : NumOps} {E : Evaluator.EvalOps N}
+    (A : C08.Agree N E) (b : Block)
+    (h : Rules.ConvertIndexToField.apply (gApi N E) b = Rules.ConvertIndexToField.apply (c08Api N E) b)
+    (ρ : ExtOracle N) (n : Nat) (externs : List String) :
+    runProgram ρ n externs b = .timeout ∨
+      runProgram ρ n externs (Rules.ConvertIndexToField.apply (c08Api N E) b) = runProgram ρ n externs b := by
+  rw [← h]; exact rule_refines_convert_index_to_field_upto_C08_guarded A b ρ n externs
+
+/-- `return t["a" .. "b"]` -/
+def indexC08Sample : Block :=
+  .mk [] (some (.ret [.index (.var "t") (.bin .concat (.str [97]) (.str [98]))]))
+
+example : Rules.ConvertIndexToField.apply (gApi C08.toyN C08.toyE) indexC08Sample =
+      Rules.ConvertIndexToField.apply (c08Api C08.toyN C08.toyE) indexC08Sample ∧
+    Rules.ConvertIndexToField.apply (c08Api C08.toyN C08.toyE) indexC08Sample =
+      .mk [] (some (.ret [.field (.var "t") "ab"])) := by
+  have h1 : Rules.ConvertIndexToField.apply (gApi C08.toyN C08.toyE) indexC08Sample =
+      .mk [] (some (.ret [.field (.var "t") "ab"])) := by rfl
+  have h2 : Rules.ConvertIndexToField.apply (c08Api C08.toyN C08.toyE) indexC08Sample =
+      .mk [] (some (.ret [.field (.var "t") "ab"])) := by rfl
+  exact ⟨h1.trans h2.symm, h2⟩
 
 end DarkluaModel.C01
